@@ -34,12 +34,12 @@ ASSUMPTIONS = [
 
 @st.composite
 def cases(draw, tier="quick"):
-    recs = draw(S.record_sets(delimiter=":", min_records=1, max_records=5, max_syn=4, unicode_arm=False, allow_empty_prefix=draw(st.booleans())))
+    recs = draw(S.record_sets(delimiter=":", repeat_synonyms=True, min_records=1, max_records=5, max_syn=4, unicode_arm=False, allow_empty_prefix=draw(st.booleans())))
     canon = [r["prefix"] for r in recs]
     syns = [s for r in recs for s in r["prefix_synonyms"]]
-    known = canon + syns
+    known = list(dict.fromkeys(canon + syns))  # (a synonym may be listed twice in its record)
     unknown = ["zz", "yy", "n0", "n1", "n2"]
-    shape = draw(st.sampled_from(["free", "free", "free", "chain", "partial-chain", "swap", "inconsistent"]))
+    shape = draw(st.sampled_from(["free", "free", "free", "chain", "partial-chain", "swap", "inconsistent", "two-names-of-one-record"]))
     mapping: list[list[str]] = []
     if shape == "free":
         keys = draw(st.lists(st.sampled_from(known + unknown[:2]), unique=True, min_size=1, max_size=4))
@@ -67,6 +67,28 @@ def cases(draw, tier="quick"):
         for a, b in zip(nodes, nodes[1:]):
             if a != b and a not in [m[0] for m in mapping]:
                 mapping.append([a, b])
+    elif shape == "two-names-of-one-record":
+        # two keys (or two values) that name the same record - its canonical prefix (possibly the empty one) and a synonym:
+        # documented as DuplicateKeys / DuplicateValues
+        multi = [r for r in recs if r["prefix_synonyms"]]
+        if multi:
+            r = draw(st.sampled_from(multi))
+            if "" not in known and draw(st.booleans()):
+                # the record is the default namespace: its canonical prefix is the empty string, the old name a synonym
+                r["prefix_synonyms"].append(r["prefix"])
+                r["prefix"] = ""
+                known.append("")
+            n1, n2 = r["prefix"], draw(st.sampled_from(r["prefix_synonyms"]))
+            if draw(st.booleans()):
+                mapping = [[n1, "m0"], [n2, "m1"]]
+            else:
+                others = [x for x in known if x not in prefixes_of(r)] or ["zz"]
+                ks = draw(st.lists(st.sampled_from(others + ["yy"]), unique=True, min_size=2, max_size=2)) if len(set(others + ["yy"])) >= 2 else ["zz", "yy"]
+                mapping = [[ks[0], n1], [ks[1], n2]]
+            if draw(st.booleans()):
+                mapping.append([draw(st.sampled_from(unknown)), "m2"])
+        else:
+            mapping = [[known[0], "m0"]]
     elif shape == "inconsistent":
         # one record referred to by two different strings: once as a key, once as the value of another pair
         r = draw(st.sampled_from(recs))
@@ -77,9 +99,16 @@ def cases(draw, tier="quick"):
         v2 = draw(st.sampled_from([x for x in names if x != k1] or names))
         mapping = [[k1, draw(st.sampled_from(["m0", "m1"]))], [k2, v2]]
     else:
-        if len(known) >= 2:
-            a, b = draw(st.sampled_from(known)), draw(st.sampled_from(known))
-            mapping = [[a, b], [b, a]] if a != b else [[a, "m0"]]
+        # a cycle of length 2-3 over known prefixes and (sometimes) one unknown string, alone or together with pairs outside it
+        pool = known + unknown[:2]
+        k = draw(st.integers(2, 3))
+        nodes = draw(st.lists(st.sampled_from(pool), unique=True, min_size=min(k, len(pool)), max_size=min(k, len(pool))))
+        if len(nodes) >= 2:
+            mapping = [[a, b] for a, b in zip(nodes, nodes[1:] + nodes[:1])]
+            for _ in range(draw(st.integers(0, 2))):
+                extra_key = draw(st.sampled_from(pool + ["xx"]))
+                if extra_key not in [m[0] for m in mapping]:
+                    mapping.append([extra_key, draw(st.sampled_from(["m0", "m1", "M0"] + known))])
         else:
             mapping = [[known[0], "m0"]]
     if not mapping:
